@@ -211,7 +211,7 @@ def gen(rng, tier):
                       'shuffle': rng.randrange(50), 'listsyntax': rng.random() < 0.7})
     # choice points at several clause levels: the query variables are read at EVERY answer while bindings made above
     # a choice point are still active and the ones below it have been replaced by those of the next alternative
-    for i in range(350 if tier == 'quick' else 5000):
+    for i in range(250 if tier == 'quick' else 5000):
         nargs = rng.choice([1, 1, 2, 3])
         nloc = rng.choice([1, 2, 3, 4])
         tree = _tree(rng, nargs, nloc)
